@@ -43,6 +43,9 @@ type execCase struct {
 	Tags  []string `json:"tags,omitempty"`
 }
 
+// execHangs counts the cases of this run that ran into the deadline; the family stops after three (fail fast).
+var execHangs int
+
 type syncManager struct {
 	ctx      context.Context
 	task     executor.RequestTask
@@ -227,6 +230,7 @@ func runExecCase(w *cw.Writer, ec execCase, kind string) error {
 	term := fmt.Sprintf("DE (Build_e2ecase %s %s %s %s)", pl.coq(), idxList(L), idxList(R), outcomeTerm(obs))
 	idx := w.Add(term, ec, atomic.LoadInt32(&m.sent) > 0, tags...)
 	if o.hang {
+		execHangs++
 		w.Violation(idx, "the executor did not finish within 10s although the whole response had been delivered: "+fmt.Sprint(o.otherTxt), "executor-hang")
 	}
 	return nil
